@@ -3,8 +3,9 @@
 # seeded/<id>/meta.json "also") on scratch worktrees, 4 at a time, and writes seeded/MATRIX.md.
 cd /verif
 tier=${1:-quick}
+filter=${2:-.}   # optional regex on seed ids; with a filter the result is appended to seeded/MATRIX.md
 out=/tmp/matrix.$$; mkdir -p $out
-ls seeded | grep -E '^C[0-9]+-m[0-9]+$' | while read id; do
+ls seeded | grep -E '^C[0-9]+-m[0-9]+$' | grep -E "$filter" | while read id; do
   props=$(python3 -c "
 import json;m=json.load(open('seeded/$id/meta.json'));print(' '.join([m['property']]+m.get('also',[])))")
   echo "$id $props"
@@ -23,6 +24,7 @@ for id in $(cut -d' ' -f1 $out/jobs); do
     echo "| $id | $prop | $need | $p $t | $r |"
   done
 done
-} > seeded/MATRIX.md
+} > $out/MATRIX.new
+if [ "$filter" = "." ]; then cp $out/MATRIX.new seeded/MATRIX.md; else grep -E '^\| C' $out/MATRIX.new >> seeded/MATRIX.md; fi
 cat seeded/MATRIX.md | grep -c caught; grep -c MISSED seeded/MATRIX.md
 rm -rf $out
